@@ -12,7 +12,7 @@ from engine.core import (sym_int, check, note, s_and, s_or, s_not, s_eq, s_le, s
 from engine import h2h, models
 from engine.runner import Shard
 
-MODELS = ['fmt_stub', 'HfSerialize', 'FrameFeed']
+MODELS = ['fmt_stub', 'HfSerialize', 'FrameFeed', 'SettingsBlob']
 BOUNDS = {
     'setting id': '0..65535 symbolic in _validate_setting; the 7 known ids + 4 unknown ids '
                   'as concrete shards on the three routes (the id is a dict key)',
@@ -192,4 +192,8 @@ def shards(tier, seed):
         # the same rule for OUR initial window size once the peer acknowledges it
         out.append(Shard('overflow_inbound/%s' % ('client' if client else 'server'),
                          c04.h_settings(client), expect=['applied', 'overflow']))
+    # fourth route: the HTTP2-Settings header of an h2c upgrade
+    from props import c25
+    out.append(Shard('upgrade_header', c25.h_invalid_header_settings(),
+                     expect=['refused', 'upgraded']))
     return out
